@@ -153,9 +153,10 @@ impl Method for PhoneticMethod {
 
     fn update_engine(&mut self, config: &Config) {
         let (modified, autocorrect) = load_user_autocorrect(config);
-        // Update the auto correct entries if only the file was modified in the meantime.
-        if modified > self.modified {
-            self.suggestion.user_autocorrect = autocorrect;
+        // Update the auto correct entries if only the file was modified
+        // (or was removed, or became unreadable) in the meantime.
+        if modified != self.modified {
+            self.suggestion.update_user_autocorrect(autocorrect);
             self.modified = modified;
         }
     }
